@@ -1011,7 +1011,7 @@ func ruleEOFEmpty(c *Ctx, r *Rep, tier string) {
 					continue
 				}
 				k, isK := constInt(bo.Y)
-				if !isK || k != 0 || symKey(bo.X) != "len(m.readers)" {
+				if !isK || k != 0 || symKey(bo.X) != "len($0.readers)" {
 					continue
 				}
 				var yes int
@@ -1137,7 +1137,7 @@ func ruleMergeStep(c *Ctx, r *Rep, tier string) {
 		allInstrs(pp.fn, func(ins ssa.Instruction) {
 			if call, isCall := ins.(*ssa.Call); isCall {
 				if g := staticCallee(&call.Call); g != nil && g.Name() == pp.name && g.Pkg != nil && g.Pkg.Pkg.Path() == "container/heap" {
-					if strings.HasPrefix(symKey(call.Call.Args[0]), "m") {
+					if strings.HasPrefix(symKey(call.Call.Args[0]), "$0") {
 						ok = true
 					}
 				}
@@ -1165,29 +1165,29 @@ func ruleHeapIface(c *Ctx, r *Rep, tier string) {
 	}
 	eff := func(sr symResult) string { return strings.Join(sr.Effects, "; ") }
 	chk("Len", func(sr symResult) string {
-		if len(sr.RetKeys) != 1 || sr.RetKeys[0] != "len(m.readers)" || len(sr.Effects) != 0 {
+		if len(sr.RetKeys) != 1 || sr.RetKeys[0] != "len($0.readers)" || len(sr.Effects) != 0 {
 			return "Len returns " + strings.Join(sr.RetKeys, ",") + " with effects [" + eff(sr) + "], want len(m.readers)"
 		}
 		return ""
 	})
 	chk("Swap", func(sr symResult) string {
-		want := map[string]bool{"store m.readers[i] = m.readers[j]": true, "store m.readers[j] = m.readers[i]": true}
+		want := map[string]bool{"store $0.readers[$1] = $0.readers[$2]": true, "store $0.readers[$2] = $0.readers[$1]": true}
 		if len(sr.Effects) != 2 || !want[sr.Effects[0]] || !want[sr.Effects[1]] || sr.Effects[0] == sr.Effects[1] {
 			return "Swap does [" + eff(sr) + "], want the exchange of m.readers[i] and m.readers[j]"
 		}
 		return ""
 	})
 	chk("Push", func(sr symResult) string {
-		if len(sr.Effects) != 1 || sr.Effects[0] != "store m.readers = append(m.readers,[i])" {
+		if len(sr.Effects) != 1 || sr.Effects[0] != "store $0.readers = append($0.readers,[$1])" {
 			return "Push does [" + eff(sr) + "], want m.readers = append(m.readers, i)"
 		}
 		return ""
 	})
 	chk("Pop", func(sr symResult) string {
-		if len(sr.RetKeys) != 1 || sr.RetKeys[0] != "m.readers[(len(m.readers)-1)]" {
+		if len(sr.RetKeys) != 1 || sr.RetKeys[0] != "$0.readers[(len($0.readers)-1)]" {
 			return "Pop returns " + strings.Join(sr.RetKeys, ",") + ", want the last element m.readers[len(m.readers)-1]"
 		}
-		if len(sr.Effects) != 1 || sr.Effects[0] != "store m.readers = m.readers[:(len(m.readers)-1)]" {
+		if len(sr.Effects) != 1 || sr.Effects[0] != "store $0.readers = $0.readers[:(len($0.readers)-1)]" {
 			return "Pop does [" + eff(sr) + "], want m.readers = m.readers[:len(m.readers)-1]"
 		}
 		return ""
@@ -1206,10 +1206,10 @@ func ruleTieID(c *Ctx, r *Rep, tier string) {
 		for _, lji := range []int64{0, 1} {
 			for _, ids := range [][2]int64{{0, 1}, {1, 0}, {1, 1}} {
 				env := map[string]int64{
-					"m.less(m.readers[i].head,m.readers[j].head)": lij,
-					"m.less(m.readers[j].head,m.readers[i].head)": lji,
-					"m.readers[i].id":                             ids[0],
-					"m.readers[j].id":                             ids[1],
+					"$0.less($0.readers[$1].head,$0.readers[$2].head)": lij,
+					"$0.less($0.readers[$2].head,$0.readers[$1].head)": lji,
+					"$0.readers[$1].id":                             ids[0],
+					"$0.readers[$2].id":                             ids[1],
 				}
 				sr := symExec(fn, env)
 				n++
@@ -1249,7 +1249,7 @@ outer:
 		for _, oid := range ids {
 			for _, rp := range poss {
 				for _, op := range poss {
-					env := map[string]int64{"r.Ref.ID()": rid, "other.Ref.ID()": oid, "r.RefID()": rid, "other.RefID()": oid, "r.Pos": rp, "other.Pos": op}
+					env := map[string]int64{"$0.Ref.ID()": rid, "$1.Ref.ID()": oid, "$0.RefID()": rid, "$1.RefID()": oid, "$0.Pos": rp, "$1.Pos": op}
 					sr := symExec(fn, env)
 					n++
 					if sr.Undec != "" {
@@ -1289,7 +1289,7 @@ outer:
 	why = ""
 	for _, a := range poss {
 		for _, b := range poss {
-			sr := symExec(fn, map[string]int64{"r.Name": a, "other.Name": b})
+			sr := symExec(fn, map[string]int64{"$0.Name": a, "$1.Name": b})
 			if sr.Undec != "" || len(sr.Rets) != 1 || !sr.Known[0] {
 				why = "depends on " + sr.Undec + strings.Join(sr.RetKeys, ",")
 			} else if (sr.Rets[0] != 0) != (a < b) {
@@ -1321,7 +1321,7 @@ func thunkTarget(v ssa.Value) string {
 	fn, ok := v.(*ssa.Function)
 	if !ok {
 		if p, ok := v.(*ssa.Parameter); ok {
-			return "param:" + p.Name()
+			return "param:" + paramKey(p)
 		}
 		return symKey(v)
 	}
@@ -1379,11 +1379,11 @@ func ruleTabOrder(c *Ctx, r *Rep, tier string) {
 		val  int64
 		want string
 	}{
-		{"UnknownOrder", samConst(c, "UnknownOrder"), "param:less"},
+		{"UnknownOrder", samConst(c, "UnknownOrder"), "param:$0"},
 		{"Unsorted", samConst(c, "Unsorted"), ""},
 		{"QueryName", samConst(c, "QueryName"), "(*github.com/biogo/hts/sam.Record).LessByName"},
 		{"Coordinate", samConst(c, "Coordinate"), "(*github.com/biogo/hts/sam.Record).LessByCoordinate"},
-		{"(any other value)", 99, "param:less"},
+		{"(any other value)", 99, "param:$0"},
 	}
 	seqs := make([][]*ssa.BasicBlock, len(cases))
 	for i, cs := range cases {
